@@ -24,23 +24,13 @@ def model_dict(m):
 
 
 def guarded_check(solver, limit_s, *assumptions):
-    """solver.check() with a watchdog: some z3 tactics ignore the 'timeout' parameter during preprocessing; the watchdog
-    thread interrupts the context so that the call returns (unknown) instead of hanging the worker"""
-    import threading
-    fired = []
-    def fire():
-        fired.append(1)
-        try: solver.ctx.interrupt()
-        except Exception: pass
-    tm = threading.Timer(limit_s, fire); tm.daemon = True; tm.start()
+    """plain check.  (A watchdog *thread* is unsafe: ctypes releases the GIL during z3 calls and Python may then free z3
+    objects from the other thread -> heap corruption.)  Hangs are avoided by using the incremental default solver, which
+    honours its timeout, for in-process queries and external solver processes with a hard kill for everything else."""
     try:
-        r = solver.check(*assumptions)
+        return solver.check(*assumptions)
     except z3.Z3Exception:
-        r = z3.unknown
-    finally:
-        tm.cancel()
-    if fired: return z3.unknown
-    return r
+        return z3.unknown
 
 
 def check_api(assertions, timeout_s, logic=None):
@@ -102,26 +92,33 @@ def parse_model(out):
     return d
 
 
-def prove(pc, hyp, goal, timeout_s=10, logic=None, portfolio=False, fresh=True, order_only=False):
+def prove(pc, hyp, goal, timeout_s=10, logic=None, portfolio=False, fresh=True, order_only=False, api_default=False):
     """returns (status, model, seconds, solver) ; status unsat = goal holds.
-    in-process z3 with the logic-specific tactic first; on unknown (portfolio=True) the external binaries"""
+    In-process z3 first, external solver binaries (hard-killable) on unknown when portfolio=True.
+    Tactic-based solvers (SolverFor) are used in-process only for the arithmetic logics; for BV/UF/FP queries some
+    tactics ignore the timeout during preprocessing, so the incremental default solver is used there with a short cap."""
     assertions = list(pc) + list(hyp) + [z3.Not(goal)]
     if logic == 'QF_BV' and order_only:
         oa = order_abstract(assertions)
         if oa is not None:
             r, m, dt = check_api(oa, timeout_s, 'QF_LIA')
             if r == 'unsat': return r, None, dt, 'z3-5.1(api, signed-order abstraction to QF_LIA)'
-            if r == 'sat': m = {k[2:]: (v & 0xffffffffffffffff if isinstance(v, int) else v) for k, v in (m or {}).items() if k.startswith('i!')}; return r, m, dt, 'z3-5.1(api, order abstraction)'
+            if r == 'sat':
+                m = {k[2:]: v for k, v in (m or {}).items() if k.startswith('i!')}
+                return r, m, dt, 'z3-5.1(api, order abstraction)'
+    arith = (logic or '').endswith(('NRA', 'LRA', 'LIA'))
     try:
-        r, m, dt = check_api(assertions, timeout_s, logic)
+        if arith: r, m, dt = check_api(assertions, timeout_s, None if api_default else logic)
+        elif logic == 'QF_BV': r, m, dt = check_api(assertions, min(timeout_s, 6.0), logic)
+        else: r, m, dt = check_api(assertions, min(timeout_s, 4.0), None)
     except z3.Z3Exception:
-        r, m, dt = check_api(assertions, timeout_s, None)
+        r, m, dt = 'unknown', None, 0.0
     if r != 'unknown' or not portfolio: return r, m, dt, 'z3-5.1(api)'
     tot = dt
     txt = to_smt2(assertions, logic)
-    order = [Z3_OLD, Z3_NEW, CVC5] if (logic or '').endswith('NRA') else [CVC5, Z3_NEW, Z3_OLD]
+    order = [Z3_OLD, Z3_NEW, CVC5] if arith else [Z3_NEW, CVC5, Z3_OLD]
     for binary in order:
-        if binary == CVC5 and ('fp.to_ieee_bv' in txt or 'to_fp' in txt and False): continue
+        if binary == CVC5 and ('fp.to_ieee_bv' in txt): continue
         r, m, dt = run_cli(binary, txt, timeout_s)
         tot += dt
         if r == 'sat':
